@@ -1,0 +1,10 @@
+//go:build verif
+
+// Verification hook (build tag "verif"): exported aliases of unexported callback internals.
+package callback
+
+import "git.sr.ht/~adrian-blx/psa-dhcp/lib/libif"
+
+func VerifDumpScriptConf(c *libif.Ifconfig) []string { return dumpScriptConf(c) }
+func VerifEnvEntry(key, val string) string             { return envEntry(key, val) }
+func VerifParseScriptArgs(s string) ([]string, error)  { return parseScriptArgs(s) }
